@@ -164,6 +164,40 @@ def run(ctx):
                 q = dict(base)
                 q["maxeval"] = N
                 ps.append(q)
+        # the nested optimizers of MMA / CCSAQ (the dual solve) and of AUGLAG / MLSL (the local searches) with limits of their OWN
+        # (algorithm parameters dual_maxeval / inner_maxeval, a maxeval on the local optimizer): a limit reached inside must not be
+        # reported as the outer limit, and the outer limit must still hold
+        for nm in ("NLOPT_LD_MMA", "NLOPT_LD_CCSAQ"):
+            for rep in range(40 if ctx.thorough else 12):
+                n = rng.choice([2, 3])
+                p = problems.gen_problem(rng, A, alg_name=nm, n=n, with_constraints=False, box="finite", maxeval=rng.choice([10, 25, 60]), allow_max=(rep % 4 == 3))
+                for k in ("maxtime", "clockq", "clock0", "stopval", "ftol_rel", "xtol_rel", "xtol_abs", "inj", "xw"):
+                    p.pop(k, None)
+                p["lb"], p["ub"] = [-3.0] * n, [3.0] * n
+                p["x0"] = [rng.uniform(-0.3, 0.3) for _ in range(n)]
+                p["obj"] = 0
+                d = [rng.gauss(0, 1) for _ in range(n)]
+                nd = sum(t * t for t in d) ** 0.5 or 1.0
+                p["oc"] = [rng.uniform(1.8, 2.6) * t / nd for t in d]
+                p["ineq"] = "s:1:%s:%s:0;s:0:%s:%s:1" % (hexd(0.0), hexd(rng.uniform(0.5, 1.5)), hexd(1e-8), hexd(rng.uniform(2.0, 4.0)))
+                pars = []
+                if rep % 3 != 2:
+                    pars.append("dual_maxeval:%s" % hexd(float(rng.choice([1, 2, 4, 10]))))
+                if rep % 3 != 0:
+                    pars.append("inner_maxeval:%s" % hexd(float(rng.choice([1, 2, 5]))))
+                p["params"] = ",".join(pars)
+                ps.append(p)
+        for nm in list(problems.MLSL) + ["NLOPT_AUGLAG", "NLOPT_AUGLAG_EQ", "NLOPT_LN_AUGLAG", "NLOPT_LD_AUGLAG"]:
+            for rep in range(12 if ctx.thorough else 4):
+                p = problems.gen_problem(rng, A, alg_name=nm, with_constraints=("AUGLAG" in nm), box="finite", maxeval=rng.choice([30, 80, 200]))
+                for k in ("maxtime", "clockq", "clock0", "inj"):
+                    p.pop(k, None)
+                if "local" in p:
+                    f = str(p["local"]).split(":")
+                    if len(f) >= 2:
+                        f[1] = str(rng.choice([3, 7, 15]))
+                        p["local"] = ":".join(f)
+                ps.append(p)
         import os
         env = dict(os.environ)
         env["HRUN_TIMEOUT"] = "10"
